@@ -267,7 +267,7 @@ type executor struct {
 	dotu    bool              // dialect of the raw connection
 	model   map[uint32]string // fid -> host path it must designate
 	opened  map[uint32]uint8  // fids opened by a successful Topen -> mode
-	wire    *xport.End // server end of the go9p client's connection
+	wire    *xport.End        // server end of the go9p client's connection
 	wireOff int
 	scratch string
 	inodes  map[uint64]int
